@@ -7,6 +7,7 @@ import (
 
 	plush "github.com/gobuffalo/plush/v5"
 
+	"verifharness/gen"
 	"verifharness/vrt"
 )
 
@@ -393,4 +394,34 @@ func TextAroundControlStatements() {
 	vrt.Assert(err == nil, "a loop with a control statement renders")
 	vrt.Assert(got == want, "text and values before a break/continue are kept, in source order; what follows in that iteration is dropped")
 	vrt.Cover("rendered")
+}
+
+// ---- text, output tags and silent code tags around and inside control
+// constructs, enumerated from a grammar and checked against the reference
+// interpreter of package gen
+func init() {
+	vrt.Register("C02_generated_mixed", GeneratedMixed)
+}
+
+func GeneratedMixed() {
+	p := gen.Profile{Ifs: true, Ctl: true, Loops: true, Lets: true, Assigns: true, Calls: true, Conds: 2, Vals: 3, Pres: 3, Posts: 3, Leafs: 2, Iters: 3}
+	if vrt.Tier() > 0 {
+		p = gen.Profile{Ifs: true, Elifs: true, Ctl: true, Bare: true, Loops: true, Lets: true, Assigns: true, Calls: true, Unknown: true, Conds: 4, Vals: 4, Iters: 5}
+	}
+	g := &gen.G{P: p}
+	prog := []*gen.Stmt{gen.Let("v", gen.Lit(1)), g.Text()}
+	// a silent tag of every kind between two pieces of text
+	switch vrt.Choice(5) {
+	case 0:
+		prog = append(prog, gen.Eval(gen.Add(gen.Var("x"), gen.Lit(1))))
+	case 1:
+		prog = append(prog, gen.Eval(gen.Call("same", gen.Var("xs"))))
+	case 2:
+		prog = append(prog, gen.Assign("v", gen.Var("x")))
+	case 3:
+		prog = append(prog, gen.Eval(gen.Var("x")))
+	}
+	prog = append(prog, g.Block(gen.Cx{Inner: "x"}, 1)...)
+	prog = append(prog, g.Text())
+	gen.Check(prog, gen.NewData(2), "text, output tags and silent tags around a construct")
 }
